@@ -177,6 +177,33 @@ static void job_raw_server(void)
 		ref_login(pw32, seed, raw + 4);
 		adv_clear(); adv_send(&me, ml, raw, 20);
 		if (adv_nout != 0) viol("raw-login-with-plain-challenge-accepted", "server answers a raw login computed without +1");
+		/* the same slot, later sessions: the expected response must follow each session's own challenge (two more sessions, 61 s apart;
+		 * challenges that differ from the first one in the top byte only, in the low bit only, and in every byte) */
+		uint32_t first = seed;
+		static const uint32_t DELTA[3] = { 0x41000000u, 0x00000001u, 0x5a3c6901u };
+		for (int sess = 0; sess < 3; sess++) {
+			uint32_t ch = (first ^ DELTA[sess]) & 0x7fffffffu;
+			if (ch == first) ch ^= 2;
+			adv_advance(61 * 1000000LL);
+			W.proc[0].nrand_forced = 1; W.proc[0].rand_forced[0] = (int)ch; W.proc[0].rand_forced_pos = 0;
+			adv_clear(); adv_send(&me, ml, pkt, mkq(pkt, 200 + sess, 'v', ver, 6, c.topdomain));
+			if (adv_nout != 1 || (n = null_payload(&adv_outs[0], &pl)) < 9 || memcmp(pl, "VACK", 4)) { viol("version-refused-after-idle-slot", "no VACK for a new session 61 s after the previous one went silent"); break; }
+			uint32_t got = (pl[4] << 24) | (pl[5] << 16) | (pl[6] << 8) | pl[7];
+			if (got != ch) { dprintf(1, "HARNESS-ERROR forced challenge not used in later session (%08x vs %08x)\n", got, ch); _exit(2); }
+			unsigned char lg[19] = { pl[8] };
+			/* a replay of the first session's response must be refused ... */
+			ref_login(pw32, first, lg + 1); lg[17] = 3; lg[18] = (unsigned char)sess;
+			adv_clear(); adv_send(&me, ml, pkt, mkq(pkt, 210 + sess, 'l', lg, 19, c.topdomain));
+			xp_count(K_RAW, 1);
+			if (adv_nout == 1 && (n = null_payload(&adv_outs[0], &pl)) >= 10 && memchr(pl, '-', n))
+				viol("response-to-an-earlier-challenge-accepted", "slot re-used with challenge 0x%08x: the response computed for the earlier challenge 0x%08x is accepted", ch, first);
+			/* ... and the documented response to this session's challenge accepted */
+			ref_login(pw32, ch, lg + 1); lg[17] = 4; lg[18] = (unsigned char)sess;
+			adv_clear(); adv_send(&me, ml, pkt, mkq(pkt, 220 + sess, 'l', lg, 19, c.topdomain));
+			xp_count(K_RAW, 1);
+			if (adv_nout != 1 || (n = null_payload(&adv_outs[0], &pl)) < 10 || !memchr(pl, '-', n))
+				viol("documented-login-rejected-by-server", "slot re-used: server does not accept the documented response for this session's challenge 0x%08x (previous session had 0x%08x)", ch, first);
+		}
 		xp_outcome(0x7000 + k);
 		xp_child_exit();
 	}
